@@ -333,4 +333,308 @@ theorem traceN_vis (w : World) (e : Expr) (env : Env) (k : Env → Bool → List
     simp only [traceN]
     exact traceForAllN_vis w u c _ (fun env' rs' h' => by rw [ih _ _ _ h', flatMap_vis_cell]) env k rs h
 
+/-! ### the events of an expression do not depend on its consumer (naturality in the continuation) -/
+
+/-- the consumer's events in place of a result -/
+def substEv (k : Env → Bool → List Ev) : Ev → List Ev
+  | .row r => k (decCell r).1 (decCell r).2
+  | e => [e]
+
+/-- a stream with the consumer's events spliced in at every result -/
+def substCells (k : Env → Bool → List Ev) (evs : List Ev) : List Ev := evs.flatMap (substEv k)
+
+/-- an event-wise rewriting that leaves pull, read and exception events alone -/
+def KeepsNonRows (g : Ev → List Ev) : Prop := ∀ e, e.isRow = false → g e = [e]
+
+theorem substEv_keeps (k : Env → Bool → List Ev) : KeepsNonRows (substEv k) := by
+  intro e he; cases e <;> first | rfl | cases he
+
+def NoRow (evs : List Ev) : Prop := ∀ e ∈ evs, e.isRow = false
+
+theorem NoRow.nil : NoRow [] := fun _ h => by cases h
+theorem NoRow.append {a b : List Ev} (ha : NoRow a) (hb : NoRow b) : NoRow (a ++ b) :=
+  fun e h => (List.mem_append.1 h).elim (ha e) (hb e)
+theorem NoRow.dropRows (evs : List Ev) : NoRow (dropRows evs) := by
+  intro e he
+  have := (List.mem_filter.1 he).2
+  simpa using this
+
+theorem flatMap_noRow {g : Ev → List Ev} (hg : KeepsNonRows g) (l : List Ev) (hl : NoRow l) : l.flatMap g = l := by
+  induction l with
+  | nil => rfl
+  | cons e l ih =>
+    rw [List.flatMap_cons, hg e (hl e (List.mem_cons_self ..)), ih fun x hx => hl x (List.mem_cons_of_mem _ hx)]
+    rfl
+
+theorem readEvent_flatMap {g : Ev → List Ev} (hg : KeepsNonRows g) (x : Val) (n : AttrName) :
+    (readEvent x n).flatMap g = readEvent x n := by
+  cases x <;> simp [readEvent, hg _ (rfl : (Ev.read _ n).isRow = false)]
+
+theorem traceVar_flatMap {g : Ev → List Ev} (hg : KeepsNonRows g) (w : World) (cp : Bool) (v : VarId) (env : Env)
+    (k : Kont) : (traceVar w cp v env k).flatMap g = traceVar w cp v env fun e x b => (k e x b).flatMap g := by
+  unfold traceVar
+  split
+  · rfl
+  · rw [List.flatMap_assoc]
+    refine flatMap_congr' _ _ _ fun p _ => ?_
+    rw [List.flatMap_cons, hg _ (rfl : (Ev.pull v p.1).isRow = false)]
+    rfl
+
+theorem traceTerm_flatMap {g : Ev → List Ev} (hg : KeepsNonRows g) (w : World) (c : Bool) (t : Term) (env : Env)
+    (k : Kont) : (traceTerm w c t env k).flatMap g = traceTerm w c t env fun e x b => (k e x b).flatMap g := by
+  induction t generalizing c env k with
+  | var v => exact traceVar_flatMap hg w c v env k
+  | lit id x => simp only [traceTerm]; split <;> rfl
+  | attr t n ih =>
+    simp only [traceTerm]
+    rw [ih]
+    congr 1; funext e x b
+    rw [List.flatMap_append, readEvent_flatMap hg]
+    congr 1
+    split
+    · rfl
+    · rw [List.flatMap_cons, hg _ (rfl : (Ev.err _).isRow = false)]; rfl
+  | index t i ih =>
+    simp only [traceTerm]
+    rw [ih]
+    congr 1; funext e x b
+    split
+    · rfl
+    · rw [List.flatMap_cons, hg _ (rfl : (Ev.err _).isRow = false)]; rfl
+  | flatten t ih =>
+    simp only [traceTerm]
+    rw [ih]
+    congr 1; funext e x b
+    split
+    · rw [List.flatMap_assoc]
+    · rw [List.flatMap_cons, hg _ (rfl : (Ev.err _).isRow = false)]; rfl
+
+theorem traceCmp_flatMap {g : Ev → List Ev} (hg : KeepsNonRows g) (w : World) (l r : Term)
+    (op : Val → Val → Except Err Bool) (env : Env) (k : Env → Bool → List Ev) :
+    (traceCmp w l r op env k).flatMap g = traceCmp w l r op env fun e b => (k e b).flatMap g := by
+  simp only [traceCmp]
+  rw [traceTerm_flatMap hg]
+  congr 1; funext e1 v1 t1
+  split
+  · rw [traceTerm_flatMap hg]
+    congr 1; funext e2 v2 t2
+    split
+    · split
+      · rfl
+      · rw [List.flatMap_cons, hg _ (rfl : (Ev.err _).isRow = false)]; rfl
+    · rfl
+  · rfl
+
+theorem existsWalkN_flatMap {g : Ev → List Ev} (hg : KeepsNonRows g) (w : World) (u : VarId)
+    (k : Env → Bool → List Ev) (evs : List Ev) (seen : List Val) :
+    (existsWalkN w u k evs seen).flatMap g = existsWalkN w u (fun e b => (k e b).flatMap g) evs seen := by
+  induction evs generalizing seen with
+  | nil => rfl
+  | cons e evs ih =>
+    cases e with
+    | pull v i => rw [existsWalkN_pull, existsWalkN_pull, List.flatMap_cons, hg _ rfl, ih]; rfl
+    | read o n => rw [existsWalkN_read, existsWalkN_read, List.flatMap_cons, hg _ rfl, ih]; rfl
+    | err e => rw [existsWalkN_err, existsWalkN_err, List.flatMap_cons, hg _ rfl, ih]; rfl
+    | row r =>
+      rw [existsWalkN_row, existsWalkN_row]
+      split
+      · rw [List.flatMap_cons, hg _ (rfl : (Ev.err _).isRow = false), ih]; rfl
+      · split
+        · rw [List.flatMap_append, ih]
+        · exact ih _
+
+theorem uptoCell_fst_noRow (evs : List Ev) : NoRow (uptoCell evs).1 := by
+  induction evs with
+  | nil => exact NoRow.nil
+  | cons e evs ih =>
+    cases e with
+    | row r => exact NoRow.nil
+    | pull v i =>
+      intro x hx
+      rcases List.mem_cons.1 hx with rfl | hx
+      · rfl
+      · exact ih x hx
+    | read o n =>
+      intro x hx
+      rcases List.mem_cons.1 hx with rfl | hx
+      · rfl
+      · exact ih x hx
+    | err e =>
+      intro x hx
+      rcases List.mem_cons.1 hx with rfl | hx
+      · rfl
+      · exact ih x hx
+
+theorem recheck_fst_noRow (stream : Env → List Ev) (envq : Env) (sols : List Env) :
+    NoRow (recheck stream envq sols).1 := by
+  induction sols with
+  | nil => exact NoRow.nil
+  | cons sol rest ih => exact NoRow.append (uptoCell_fst_noRow _) ih
+
+theorem forAllLoopN_fst_noRow (stream : Env → List Ev) (qs : List (List Ev × Env)) (hq : ∀ q ∈ qs, NoRow q.1)
+    (sols : List Env) : NoRow (forAllLoopN stream qs sols).1 := by
+  induction qs generalizing sols with
+  | nil => exact NoRow.nil
+  | cons q qs ih =>
+    obtain ⟨pre, envq⟩ := q
+    simp only [forAllLoopN]
+    split
+    · exact NoRow.nil
+    · exact NoRow.append (NoRow.append (hq _ (List.mem_cons_self ..)) (recheck_fst_noRow _ _ _))
+        (ih (fun q h => hq q (List.mem_cons_of_mem _ h)) _)
+
+theorem uvals_noRow (w : World) (u : VarId) (env : Env) : ∀ q ∈ uvals w u env, NoRow q.1 := by
+  unfold uvals
+  split
+  · intro q hq; simp only [List.mem_singleton] at hq; subst hq; exact NoRow.nil
+  · intro q hq
+    simp only [List.mem_map] at hq
+    obtain ⟨p, _, rfl⟩ := hq
+    intro e he; simp only [List.mem_singleton] at he; subst he; rfl
+
+theorem traceForAllN_flatMap {g : Ev → List Ev} (hg : KeepsNonRows g) (w : World) (u : VarId) (others : List Key)
+    (stream : Env → List Ev) (env : Env) (k : Env → Bool → List Ev) :
+    (traceForAllN w u others stream env k).flatMap g = traceForAllN w u others stream env fun e b => (k e b).flatMap g := by
+  unfold traceForAllN
+  have hu := uvals_noRow w u env
+  cases hU : uvals w u env with
+  | nil => simp only [List.flatMap_cons, hg _ (rfl : (Ev.err _).isRow = false)]; rfl
+  | cons q qs =>
+    obtain ⟨pre, env1⟩ := q
+    rw [hU] at hu
+    simp only [List.flatMap_append]
+    rw [flatMap_noRow hg _ (hu _ (List.mem_cons_self ..)), flatMap_noRow hg _ (NoRow.dropRows _),
+      flatMap_noRow hg _ (forAllLoopN_fst_noRow stream qs (fun q h => hu q (List.mem_cons_of_mem _ h)) _),
+      List.flatMap_assoc]
+
+/-- **naturality**: rewriting the events of the continuation event-wise (leaving non-row events alone) commutes with
+the evaluation of ANY expression — the expression's own events are the same whatever the consumer does -/
+theorem traceN_flatMap {g : Ev → List Ev} (hg : KeepsNonRows g) (w : World) (e : Expr) (env : Env)
+    (k : Env → Bool → List Ev) :
+    (traceN w e env k).flatMap g = traceN w e env fun e1 b => (k e1 b).flatMap g := by
+  induction e generalizing env k with
+  | cmp op l r => exact traceCmp_flatMap hg w l r _ env k
+  | contains c i => exact traceCmp_flatMap hg w c i _ env k
+  | truth t => simp only [traceN]; exact traceTerm_flatMap hg w true t env _
+  | hasType t c => simp only [traceN]; exact traceTerm_flatMap hg w false t env _
+  | and l r ihl ihr =>
+    simp only [traceN]
+    rw [ihl]
+    congr 1; funext e1 t
+    split
+    · exact ihr _ _
+    · rfl
+  | elseIf l r ihl ihr =>
+    simp only [traceN]
+    rw [ihl]
+    congr 1; funext e1 t
+    split
+    · rfl
+    · exact ihr _ _
+  | union l r ihl ihr =>
+    simp only [traceN, List.flatMap_append]
+    rw [ihl, ihr]
+    congr 2; funext e1 t
+    split
+    · rfl
+    · exact ihr _ _
+  | not e ih => simp only [traceN]; exact ih _ _
+  | exists_ u c _ => simp only [traceN]; exact existsWalkN_flatMap hg w u k _ _
+  | forAll u c _ => simp only [traceN]; exact traceForAllN_flatMap hg w u _ _ env k
+
+theorem substEv_cell (k : Env → Bool → List Ev) (e : Env) (b : Bool) : (cell e b).flatMap (substEv k) = k e b := by
+  simp [cell, substEv]
+
+/-- the trace under any continuation is the expression's own stream with the continuation spliced in at the results -/
+theorem traceN_eq_substCells (w : World) (e : Expr) (env : Env) (k : Env → Bool → List Ev) :
+    traceN w e env k = substCells k (streamN w e env) := by
+  unfold substCells streamN
+  rw [traceN_flatMap (substEv_keeps k)]
+  simp only [substEv_cell]
+
+/-! ### splicing rows only / splicing nothing of interest -/
+
+theorem substCells_nil (k : Env → Bool → List Ev) : substCells k [] = [] := rfl
+theorem substCells_cons_row (k : Env → Bool → List Ev) (r) (evs : List Ev) :
+    substCells k (Ev.row r :: evs) = k (decCell r).1 (decCell r).2 ++ substCells k evs := rfl
+theorem substCells_cons_pull (k : Env → Bool → List Ev) (v i) (evs : List Ev) :
+    substCells k (Ev.pull v i :: evs) = Ev.pull v i :: substCells k evs := rfl
+theorem substCells_cons_read (k : Env → Bool → List Ev) (o n) (evs : List Ev) :
+    substCells k (Ev.read o n :: evs) = Ev.read o n :: substCells k evs := rfl
+theorem substCells_cons_err (k : Env → Bool → List Ev) (e) (evs : List Ev) :
+    substCells k (Ev.err e :: evs) = Ev.err e :: substCells k evs := rfl
+
+theorem cellsOf_cons_row (r) (evs : List Ev) : cellsOf (Ev.row r :: evs) = decCell r :: cellsOf evs := rfl
+theorem cellsOf_cons_pull (v i) (evs : List Ev) : cellsOf (Ev.pull v i :: evs) = cellsOf evs := rfl
+theorem cellsOf_cons_read (o n) (evs : List Ev) : cellsOf (Ev.read o n :: evs) = cellsOf evs := rfl
+theorem cellsOf_cons_err (e) (evs : List Ev) : cellsOf (Ev.err e :: evs) = cellsOf evs := rfl
+
+/-- a filter that keeps no row and nothing the consumer emits sees the stream's own events only -/
+theorem filter_substCells (keep : Ev → Bool) (hrow : ∀ r, keep (.row r) = false) (k : Env → Bool → List Ev)
+    (evs : List Ev) (hk : ∀ p ∈ cellsOf evs, (k p.1 p.2).filter keep = []) :
+    (substCells k evs).filter keep = evs.filter keep := by
+  induction evs with
+  | nil => rfl
+  | cons e evs ih =>
+    cases e with
+    | pull v i =>
+      rw [substCells_cons_pull, List.filter_cons, List.filter_cons, ih (by simpa [cellsOf_cons_pull] using hk)]
+    | read o n =>
+      rw [substCells_cons_read, List.filter_cons, List.filter_cons, ih (by simpa [cellsOf_cons_read] using hk)]
+    | err e =>
+      rw [substCells_cons_err, List.filter_cons, List.filter_cons, ih (by simpa [cellsOf_cons_err] using hk)]
+    | row r =>
+      rw [cellsOf_cons_row] at hk
+      rw [substCells_cons_row, List.filter_append, hk _ (List.mem_cons_self ..),
+        ih (fun p hp => hk p (List.mem_cons_of_mem _ hp)), List.filter_cons, hrow]
+      rfl
+
+/-! ### `Exists` needs only a prefix of its child's stream for a prefix of its own -/
+
+theorem existsWalkN_append (w : World) (u : VarId) (k : Env → Bool → List Ev) (a b : List Ev) (seen : List Val) :
+    ∃ seen', existsWalkN w u k (a ++ b) seen = existsWalkN w u k a seen ++ existsWalkN w u k b seen' := by
+  induction a generalizing seen with
+  | nil => exact ⟨seen, rfl⟩
+  | cons e a ih =>
+    cases e with
+    | pull v i => obtain ⟨s', h⟩ := ih seen; exact ⟨s', by simp [h]⟩
+    | read o n => obtain ⟨s', h⟩ := ih seen; exact ⟨s', by simp [h]⟩
+    | err e => obtain ⟨s', h⟩ := ih seen; exact ⟨s', by simp [h]⟩
+    | row r =>
+      simp only [List.cons_append, existsWalkN_row]
+      split
+      · obtain ⟨s', h⟩ := ih seen; exact ⟨s', by simp [h]⟩
+      · split
+        · obtain ⟨s', h⟩ := ih (seen ++ [_]); exact ⟨s', by rw [h, List.append_assoc]⟩
+        · exact ih seen
+
+theorem existsWalkN_prefix (w : World) (u : VarId) (k : Env → Bool → List Ev) {a s : List Ev} (h : a <+: s)
+    (seen : List Val) : existsWalkN w u k a seen <+: existsWalkN w u k s seen := by
+  obtain ⟨b, rfl⟩ := h
+  obtain ⟨s', h⟩ := existsWalkN_append w u k a b seen
+  rw [h]; exact List.prefix_append _ _
+
+/-- when every result of the child binds the quantified variable, `Exists` adds no event of its own -/
+theorem existsWalkN_dropRows_cell (w : World) (u : VarId) (evs : List Ev) (seen : List Val)
+    (hb : ∀ p ∈ cellsOf evs, Bnd u p.1) : dropRows (existsWalkN w u cell evs seen) = dropRows evs := by
+  induction evs generalizing seen with
+  | nil => rfl
+  | cons e evs ih =>
+    cases e with
+    | pull v i => simp [ih seen (by simpa [cellsOf_cons_pull] using hb)]
+    | read o n => simp [ih seen (by simpa [cellsOf_cons_read] using hb)]
+    | err e => simp [ih seen (by simpa [cellsOf_cons_err] using hb)]
+    | row r =>
+      rw [cellsOf_cons_row] at hb
+      have hr := hb _ (List.mem_cons_self ..)
+      have hrest : ∀ p ∈ cellsOf evs, Bnd u p.1 := fun p hp => hb p (List.mem_cons_of_mem _ hp)
+      rw [existsWalkN_row, dropRows_cons_row]
+      cases hl : (decCell r).1.lookup (.var u) with
+      | none => simp [Bnd, hl] at hr
+      | some x =>
+        simp only
+        split
+        · rw [dropRows_append, ih _ hrest]; rfl
+        · exact ih _ hrest
+
 end KrroodVerif.Eql
